@@ -5,6 +5,8 @@ import PV.Driver.Sleep
 import PV.Driver.SockAddr
 import PV.Driver.Ini
 import PV.Driver.CondVar
+import PV.Driver.Atomics
+import PV.Driver.Locks
 def main (args : List String) : IO UInt32 := do
   match args with
   | ["ht"] => PV.Driver.HT.run; return 0
@@ -14,4 +16,6 @@ def main (args : List String) : IO UInt32 := do
   | ["sockaddr"] => PV.Driver.SockAddr.run; return 0
   | ["ini"] => PV.Driver.Ini.run; return 0
   | ["condvar"] => PV.Driver.CondVar.run; return 0
+  | ["atomics"] => PV.Driver.Atomics.run; return 0
+  | ["locks"] => PV.Driver.Locks.run; return 0
   | _ => IO.eprintln "usage: pvdriver <family>  (ops on stdin)"; return 2
